@@ -1227,6 +1227,11 @@ class Evaluator:
             return self._construct(f.cls, args, kwargs)
         if isinstance(f, LibRef):
             return self._lib_call(f.name, args, kwargs)
+        if isinstance(f, Obj):
+            m = self.repo.lookup_method(f.cls, "__call__")
+            if m is None:
+                raise Raised("TypeError")
+            return self.call_function(m, args, kwargs, f)
         if isinstance(f, NativeObj) and "__call__" in f.methods:
             w = model(f.methods["__call__"])
             w._c09_takes_poison = f.poison_ok
